@@ -3,6 +3,7 @@
 package weshnet
 
 import (
+	ipfslog "berty.tech/go-ipfs-log"
 	"context"
 	"errors"
 	"fmt"
@@ -93,7 +94,7 @@ func c13RPCLister[T any](order []cid.Cid, call func(since, until []byte, untilNo
 
 func TestVerif_C13_RPC(t *testing.T) {
 	acct := vacct.Get("C13")
-	vacct.RapidCheck(t, vacct.N(3, 600), func(rt *rapid.T) {
+	vacct.RapidCheck(t, vacct.N(5, 600), func(rt *rapid.T) {
 		tp, cleanup := NewTestingProtocol(vCtx, t, nil, nil)
 		defer cleanup()
 		svc := tp.Service.(*service)
@@ -124,6 +125,46 @@ func TestVerif_C13_RPC(t *testing.T) {
 		cg, err := svc.GetContextGroupForID(gpk)
 		if err != nil {
 			rt.Fatalf("harness: %v", err)
+		}
+		// in three quarters of the cases another member's concurrent branch reaches this node (entries fetched, heads exchanged)
+		// and nothing is written on top of it: both logs have two heads while they are listed
+		forked := false
+		if n > 0 && rapid.IntRange(0, 3).Draw(rt, "foreign-branch") != 0 {
+			w2 := vNewReplica(t, "W2", nil)
+			defer w2.close()
+			gc2 := w2.open(t, cg.Group())
+			defer gc2.Close()
+			var lastMeta, lastMsg ipfslog.Entry
+			for i := 0; i < rapid.IntRange(1, 3).Draw(rt, "foreign-entries"); i++ {
+				op, err := gc2.MetadataStore().SendAppMetadata(vCtx, []byte(fmt.Sprintf("other member %d", i)))
+				if err != nil {
+					rt.Fatalf("harness: %v", err)
+				}
+				lastMeta = op.GetEntry()
+				op2, err := gc2.MessageStore().AddMessage(vCtx, []byte(fmt.Sprintf("other member %d", i)))
+				if err != nil {
+					rt.Fatalf("harness: %v", err)
+				}
+				lastMsg = op2.GetEntry()
+			}
+			for _, l := range []ipfslog.Log{gc2.MetadataStore().OpLog(), gc2.MessageStore().OpLog()} {
+				for _, e := range l.GetEntries().Slice() {
+					nd, err := vSharedNode(t).API().Dag().Get(vCtx, e.GetHash())
+					if err != nil {
+						rt.Fatalf("harness: %v", err)
+					}
+					if err := svc.ipfsCoreAPI.Dag().Add(vCtx, nd); err != nil {
+						rt.Fatalf("harness: %v", err)
+					}
+				}
+			}
+			if err := vSync(cg.metadataStore, lastMeta); err != nil {
+				rt.Fatalf("harness: %v", err)
+			}
+			if err := vSync(cg.messageStore, lastMsg); err != nil {
+				rt.Fatalf("harness: %v", err)
+			}
+			forked = cg.metadataStore.OpLog().Heads().Len() >= 2
 		}
 		// wait until the metadata log is quiet (activation appends its own entries asynchronously)
 		last, since := -1, time.Now()
@@ -159,7 +200,7 @@ func TestVerif_C13_RPC(t *testing.T) {
 		metaOrder := toCids(c13MetaLister(cg), sentMeta, "metadata")
 		msgOrder := toCids(c13MsgLister(cg), sentMsg, "messages")
 		count := func(nt bool, key string) {
-			acct.Case(nt, fmt.Sprintf("rpc|%d|%s", n, key), func() any { return map[string]any{"kind": "listing-rpc", "entries_written": n, "query": key} }, "rpc-listing", lbl07(nt, "rpc-listing/both-bounds-n>=3"))
+			acct.Case(nt, fmt.Sprintf("rpc|%d|%s", n, key), func() any { return map[string]any{"kind": "listing-rpc", "entries_written": n, "query": key} }, "rpc-listing", lbl07(nt, "rpc-listing/both-bounds-n>=3"), lbl07(forked, "rpc-listing/log-with-two-heads"))
 		}
 		metaRPC := c13RPCLister(metaOrder, func(s, u []byte, untilNow, rev bool, st *c13Stream[protocoltypes.GroupMetadataEvent]) error {
 			return svc.GroupMetadataList(&protocoltypes.GroupMetadataList_Request{GroupPk: gpk, SinceId: s, UntilId: u, UntilNow: untilNow, ReverseOrder: rev}, st)
